@@ -212,6 +212,11 @@ fn map_agrees<K: El, V: El, const N: usize>(m: &Map<K, V, N>, r: &[(K, V)], univ
 }
 
 fn dict_shape<K: El, V: El, const N: usize>(name: &str, universe: &[K], vals: &[V], seed: u64) {
+    if catch_unwind(AssertUnwindSafe(|| dict_shape_run::<K, V, N>(name, universe, vals, seed))).is_err() {
+        fault(format!("op=shapes SHAPE_DICT {} Map<_,_,{}>: an operation that must not panic panicked (seed {})", name, N, seed));
+    }
+}
+fn dict_shape_run<K: El, V: El, const N: usize>(name: &str, universe: &[K], vals: &[V], seed: u64) {
     if cfg!(miri) && N > 8 { return; } // the interpreter is ~500x slower; the small layouts carry the UB search
     let mut g = G::new(Map::<K, V, N>::new());
     let mut r: Vec<(K, V)> = Vec::new();
@@ -285,6 +290,11 @@ fn set_agrees<T: El, const N: usize>(s: &Set<T, N>, r: &[T], universe: &[T]) -> 
 }
 
 fn set_shape<T: El, const N: usize, const M: usize>(name: &str, universe: &[T], seed: u64) {
+    if catch_unwind(AssertUnwindSafe(|| set_shape_run::<T, N, M>(name, universe, seed))).is_err() {
+        fault(format!("op=shapes SHAPE_SET {} Set<_,{}>: an operation that must not panic panicked (seed {})", name, N, seed));
+    }
+}
+fn set_shape_run<T: El, const N: usize, const M: usize>(name: &str, universe: &[T], seed: u64) {
     if cfg!(miri) && N > 8 { return; }
     let mut g = G::new(Set::<T, N>::new());
     let mut r: Vec<T> = Vec::new();
